@@ -1,11 +1,11 @@
 """C06 — pipelines keep moving and heal themselves after restarts and stalls."""
 import logging
 from ..core import Violation
-from .. import pipeline, mqnet, protocol, pairfeed
+from .. import pipeline, mqnet, protocol, pairfeed, netstall
 
 ID = 'C06'
-MODULES = ['OFModel.Zmq.Receiver', 'OFModel.Zmq.Sender', 'OFModel.Zmq.Pair', 'OFModel.Gen.Facts']
-PROP_FILES = ['C06', 'PairRecv', 'PairSend', 'C06Live', 'PairFair', 'C06Fair']
+MODULES = ['OFModel.Zmq.Receiver', 'OFModel.Zmq.Sender', 'OFModel.Zmq.Pair', 'OFModel.Zmq.Net', 'OFModel.Gen.Facts']
+PROP_FILES = ['C06', 'PairRecv', 'PairSend', 'C06Live', 'PairFair', 'C06Fair', 'C06NetEdge', 'C06NetMeasure', 'C06Net']
 LEVEL = 'proof'
 RULE = ('(1) closed pair (OFProps/C06Live.lean): a REAL ZMQSender and a REAL ZMQReceiver wired through fakezmq run random schedules of send | recv | restart consumer | restart publisher '
         '(graceful or crash, anywhere), compared event by event with the Lean model OF.Pair (messages published, requests pushed, sets returned, client table, ids, buffers, channel lengths), '
@@ -14,13 +14,15 @@ RULE = ('(1) closed pair (OFProps/C06Live.lean): a REAL ZMQSender and a REAL ZMQ
         '(2) MQNet fault campaign on chain / tee / tee-rejoin pipelines with an endless source: victim = every filter in turn (source, relay, sink; required and not required), '
         'fault = kill at a random virtual time + restart after {0, 0.3, 1, 7 s} | kill for ever (non-required consumer) | stall for 0.5-8 s; delays 0-60 ms. '
         'Oracle (exploration): within 15 virtual seconds after the fault ends every live sink has been handed a new frame, and sequence numbers stay strictly increasing at every node. '
+        '(3) chain of 2-6 REAL MQ objects on fakezmq (OFProps/C06Net.lean, harness/ofverif/netstall.py): random restart-free reachable prefix, then either the explicit schedule of C06_net_chain_progress (send of the sink, then pull: 5 (L-1) + 2 events, 1-3 repetitions, any clock readings) or 5 (L-1) + 3 random FAIR rounds (every node recv and send at least once per round, random order / repetitions / clock steps up to beyond the connection time-out: C06_net_chain_fair_heals); oracle net-chain-no-progress: the real sink recv returned fewer new frame sets than proved; the same schedule through OF.Net (net.run), compared event by event. '
         'Plus the adversarial feeds of C01/C02 for the component tie.  non-trivial = a run in which the victim was hit while frames were flowing / a pair schedule with at least one restart')
 ASSUMPTIONS = ['partial by nature: proved are the schedule-independent unstick lemmas (re-request, handshake, fast-forward, newer-id adoption, eviction, required-output wait) and, for the closed pair of one publisher '
                'and one synchronised consumer, "no reachable deadlock": from every reachable state (any history, any restarts) an explicit continuation delivers a new frame (C06_pair_recovers), '
                'within a constant 12 events = 5 polls + one connection time-out (C06_pair_recovers_const / C06_pair_recovery_bound_const, invariant Tight; 9 events when the request channel is empty; assuming nothing about channel contents: #queued requests + 9, C06_pair_recovers), ids strictly increasing per incarnation (C06_pair_order)',
                'the pair model delivers messages immediately, loss-free and FIFO, and a restarted endpoint is reachable at once: libzmq connection establishment / reconnect timing and OS scheduling are not modelled '
                '(the theorem assumes nothing about channel contents, so it also covers loss and stale traffic; it does assume the continuation itself is delivered)',
-               'liveness of longer pipelines (chains, tees, joins) / "within a bounded time" under fair scheduling is explored on MQNet, not proved',
+               'chains of any length (C06_net_chain_progress / _fair_heals / _round_robin / _throughput): no restart-free reachable deadlock, a new frame set at the sink within 5 (L-1) + 3 fair rounds, hypotheses: no restarts in the history or the continuation, the source always has a next frame and every relay forwards every set (FwdAll), non-empty topic names; immediate loss-free delivery',
+               'liveness of tees and joins / chains with restarts / "within a bounded time" in seconds is explored on MQNet, not proved',
                'MQNet drops requests sent to a dead peer (libzmq would queue them up to the HWM and deliver them after the reconnect)']
 TRUSTED = ['MQNet event loop and fault injection (harness/ofverif/mqnet.py)', 'fake pyzmq surface harness/ofverif/fakezmq.py (in-process sockets, virtual clock) used by the pair rig']
 
@@ -195,6 +197,39 @@ def pair_fair_campaign(ctx, n):
     res.extra['pair_fair_events_until_recovery'] = when
 
 
+def net_live_campaign(ctx, n):
+    """chain of 2-6 REAL MQ objects on fakezmq (OFProps/C06Net.lean): random restart-free reachable prefix, then the schedule of C06_net_chain_progress
+    (1-3 repetitions, any clock readings) or 5 (L-1) + 3 random fair rounds; vs OF.Net event by event"""
+    logging.disable(logging.CRITICAL)
+    res, rng = ctx.result, ctx.rng
+    trials = [c['trial'] for c in ctx.corpus if c.get('feed') == 'net-live']
+    if ctx.replay: trials = [ctx.replay['case']['trial']] if ctx.replay.get('case', {}).get('feed') == 'net-live' else []; n = 0
+    for _ in range(n): trials.append(netstall.gen_live_trial(rng))
+    runs = [netstall.run_live(t) for t in trials]
+    model = ctx.driver.batch([netstall.model_request(t) for t in trials]) if ctx.driver else None
+    hist = {}
+    for idx, (t, (obs, info)) in enumerate(zip(trials, runs)):
+        L = len(t['topo']['ups'])
+        new = [x for x in info['returned'] if x > info['prev0']]
+        res.note({'feed': 'net-live', 'nodes': L, 'mode': t['mode'], 'prefix_events': len(t['prefix']), 'continuation_events': len(t['stall']), 'new_sets_at_sink': len(new)}, nontrivial=False)
+        if new: res.nontrivial.add(f"net-live:{ctx.seed}:{idx}:{len(t['prefix'])}:{len(t['stall'])}")
+        k = f"{t['mode']}:L={L}:new={min(len(new), 9)}"; hist[k] = hist.get(k, 0) + 1
+        for key, what in netstall.live_oracle(t, info)[:1]:
+            res.violations.append(Violation(key, what, {'feed': 'net-live', 'trial': t}))
+        if model is not None:
+            r = model[idx]
+            if 'err' in r:
+                res.disagreements.append({'point': 'net.run', 'case': {'feed': 'net-live', 'trial': t}, 'impl': None, 'model': r}); continue
+            d = netstall.compare(t, obs, r)
+            if d is not None:
+                ci, a, b = d
+                evs = t['prefix'] + t['stall']
+                res.disagreements.append({'point': f'net-live event #{ci} {evs[ci] if ci < len(evs) else None}: real MQ objects vs OF.Net.step', 'case': {'feed': 'net-live', 'trial': t}, 'impl': a, 'model': b})
+            else:
+                res.traces_validated += 1
+    res.extra['net_live'] = hist
+
+
 def run(ctx):
     logging.disable(logging.CRITICAL)
     res, rng = ctx.result, ctx.rng
@@ -220,3 +255,4 @@ def run(ctx):
     # component tie (same automata as C01/C02)
     protocol.recv_campaign(ctx, 'C06', 300 if not ctx.thorough else 3000, ['wf', 'adv'])
     protocol.send_campaign(ctx, 'C06', 300 if not ctx.thorough else 3000, ['sync', 'adv'])
+    net_live_campaign(ctx, 1500 if ctx.thorough else (400 if ctx.escalate else 120))     # last: the random stream of the campaigns above is unchanged
